@@ -57,6 +57,9 @@ pub enum Mutn {
     GarbageRsa(u16, u16),
     /// an honest Encryption Response carrying a shared secret of this size
     SecretSize(u8),
+    /// a well-formed Encryption Response whose verify token is only the first n bytes of the issued one (or, from 32
+    /// on, the issued token followed by n - 32 more bytes)
+    TokenLength(u8),
     /// arbitrary bytes instead of the frame
     Random(#[serde(with = "hexbytes")] Vec<u8>),
     /// the frame, and then arbitrary bytes
@@ -203,7 +206,7 @@ fn build(pkt: &Pkt, m: &Mutn, max: i32, body_ignored: bool) -> Built {
     let strfields: Vec<usize> = fields.iter().enumerate().filter(|(_, f)| matches!(f, Field::Str(_))).map(|(i, _)| i).collect();
     let varfields: Vec<usize> = fields.iter().enumerate().filter(|(_, f)| matches!(f, Field::VarInt(_))).map(|(i, _)| i).collect();
     match m {
-        Mutn::None | Mutn::SecretSize(_) | Mutn::GarbageRsa(..) => Built { first: normal(&plain_body), rest: vec![], refuse_on_prefix: false, must_err: false, reached: true },
+        Mutn::None | Mutn::SecretSize(_) | Mutn::GarbageRsa(..) | Mutn::TokenLength(_) => Built { first: normal(&plain_body), rest: vec![], refuse_on_prefix: false, must_err: false, reached: true },
         Mutn::OuterLen(class) => {
             let true_len = (idb.len() + plain_body.len()) as i32;
             let v = len_value(class, true_len, max);
@@ -391,6 +394,12 @@ fn run_case(case: &Case) -> (sim::SimOutcome, Obs) {
                         let (variant, secret) = match (&case.mutation, i == at) {
                             (Mutn::GarbageRsa(a, b), true) => (EncResp::Garbage(vec![0x5a; *a as usize], vec![0xa5; *b as usize]), secret16.clone()),
                             (Mutn::SecretSize(n), true) => (EncResp::Honest, vec![9u8; *n as usize]),
+                            (Mutn::TokenLength(n), true) if *n < 32 => (EncResp::TokenPrefix(*n), secret16.clone()),
+                            (Mutn::TokenLength(n), true) => {
+                                let mut t = c.enc_req.as_ref().map(|(_, t, _)| t.clone()).unwrap_or_default();
+                                t.extend(std::iter::repeat(0x5a).take(usize::from(*n) - 32 + 1));
+                                (EncResp::WrongToken(t), secret16.clone())
+                            }
                             _ => (EncResp::Honest, secret16.clone()),
                         };
                         match c.encryption_response(&variant, &secret) {
@@ -422,7 +431,8 @@ fn run_case(case: &Case) -> (sim::SimOutcome, Obs) {
                 let b = build(&pkt, &case.mutation, max, body_ignored);
                 let must_err = b.must_err
                     || matches!((&case.mutation, *step), (Mutn::GarbageRsa(..), "EncryptionResponse"))
-                    || matches!((&case.mutation, *step), (Mutn::SecretSize(n), "EncryptionResponse") if *n != 16);
+                    || matches!((&case.mutation, *step), (Mutn::SecretSize(n), "EncryptionResponse") if *n != 16)
+                    || matches!((&case.mutation, *step), (Mutn::TokenLength(_), "EncryptionResponse"));
                 {
                     let mut o = o2.lock().unwrap();
                     o.reached = !c.server_done() && b.reached;
@@ -478,6 +488,7 @@ fn class_name(m: &Mutn) -> String {
         Mutn::Ordinal(_) => "ordinal".into(),
         Mutn::GarbageRsa(..) => "garbage_rsa".into(),
         Mutn::SecretSize(_) => "secret_size".into(),
+        Mutn::TokenLength(_) => "token_length".into(),
         Mutn::Random(_) => "random_bytes".into(),
         Mutn::ThenRandom(_) => "frame_then_random".into(),
         Mutn::Flood { .. } => "flood".into(),
@@ -515,6 +526,7 @@ impl Check for C04 {
             2 => prop_oneof![proptest::sample::select(vec![-1i32, 0, 3, 4, 5, i32::MAX, i32::MIN]), any::<i32>()].prop_map(Mutn::Ordinal),
             1 => (proptest::sample::select(vec![0u16, 1, 64, 127, 128, 129, 200, 1000]), proptest::sample::select(vec![0u16, 1, 64, 128, 200])).prop_map(|(a, b)| Mutn::GarbageRsa(a, b)),
             1 => proptest::sample::select(vec![0u8, 1, 8, 15, 17, 32, 100]).prop_map(Mutn::SecretSize),
+            1 => proptest::sample::select(vec![0u8, 1, 16, 31, 32, 33, 60]).prop_map(Mutn::TokenLength),
             3 => proptest::collection::vec(any::<u8>(), 0..200).prop_map(Mutn::Random),
             1 => proptest::collection::vec(any::<u8>(), 1..60).prop_map(Mutn::ThenRandom),
             2 => (prop_oneof![3 => proptest::sample::select(vec![vec![0xffu8], vec![0x80u8], vec![0x81u8], vec![0xff, 0xff, 0xff, 0xff, 0x8f], vec![0x80, 0x80, 0x80, 0x80, 0x80, 0x01]]), 1 => proptest::collection::vec(0x80u8..=0xff, 1..8)], proptest::sample::select(vec![300u16, 600, 1500])).prop_map(|(pattern, kib)| Mutn::Flood { pattern, kib }),
@@ -612,7 +624,7 @@ impl Check for C04 {
         (Verdict::Pass, info)
     }
     fn rule(&self) -> String {
-        "a well-formed status/login/transfer transcript played to a generated step whose frame is mutated (outer and inner length prefixes: MIN, -1, 0, len-1, len+1, max, max+1, 2max, 2^31-1, arbitrary; truncation at every offset; over-long VarInts of 2-10 groups in length/id/field; invalid UTF-8; out-of-range ordinals; garbage RSA ciphertexts; secrets of the wrong size; random bytes; frame followed by random bytes; floods of unterminated length prefixes), before or after the encryption switch, the configuration phase including a Resource Pack Response (ordinal) and Client Information whose locale (multi-byte characters, separators only, up to 40 characters) is localised by the real fixed localization adapter, max_packet_length in {64,400,1000,10000,2^17,2^20}; then end of stream. non-trivial = the mutated frame was reached and the class is not 'unmutated'; distinct = distinct case".into()
+        "a well-formed status/login/transfer transcript played to a generated step whose frame is mutated (outer and inner length prefixes: MIN, -1, 0, len-1, len+1, max, max+1, 2max, 2^31-1, arbitrary; truncation at every offset; over-long VarInts of 2-10 groups in length/id/field; invalid UTF-8; out-of-range ordinals; garbage RSA ciphertexts; secrets of the wrong size; verify tokens of the wrong length; random bytes; frame followed by random bytes; floods of unterminated length prefixes), before or after the encryption switch, the configuration phase including a Resource Pack Response (ordinal) and Client Information whose locale (multi-byte characters, separators only, up to 40 characters) is localised by the real fixed localization adapter, max_packet_length in {64,400,1000,10000,2^17,2^20}; then end of stream. non-trivial = the mutated frame was reached and the class is not 'unmutated'; distinct = distinct case".into()
     }
     fn assumptions(&self) -> Vec<String> {
         vec![
